@@ -225,6 +225,23 @@ def check_state(chk, MX, sd, acs, name):
     return None, None
 
 
+def check_state_integers(chk, MX):
+    """the same state written with integers and with floats: the same state derivatives"""
+    rng = chk.rng
+    ac = gen.simple_wing_aircraft(N=3, b=rng.uniform(3, 5))
+    sd = {"solver": {"type": "nonlinear"}, "scene": {"atmosphere": {"rho": "standard"}}}
+    sti = {"velocity": rng.randint(70, 120), "alpha": rng.randint(1, 5), "beta": rng.randint(-3, 3), "angular_rates": [0, 0, 0],
+           "position": [rng.randint(-50, 50), rng.randint(-50, 50), -rng.randint(500, 3000)], "orientation": [rng.randint(-20, 20), rng.randint(-10, 10), rng.randint(-90, 90)]}
+    stf = {k: ([float(x) for x in v] if isinstance(v, list) else float(v)) for k, v in sti.items()}
+    di = gen.build_scene(MX, sd, [("a", ac, sti, {})]).state_derivatives()["a"]
+    df = gen.build_scene(MX, sd, [("a", ac, stf, {})]).state_derivatives()["a"]
+    bad = api.compare(di, df, rtol=1e-7, atol=1e-9)
+    chk.case(dict(kind="state-integers"), nontrivial=True)
+    if bad:
+        return "state:integers-vs-floats", dict(state_integers=sti, differences=bad[:8])
+    return None, None
+
+
 def run(chk):
     MX = common.setup_env()
     import machupX.helpers as H
@@ -238,6 +255,9 @@ def run(chk):
     cases, descr = [], []
     n = chk.q(12, 120)
     kinds = ["stability", "damping", "control", "state", "union"]
+    sig0, det0 = check_state_integers(chk, MX)
+    if sig0:
+        chk.violation(sig0, dict(kind="derivatives", what=sig0, detail=det0))
     for i in range(n):
         kind = kinds[i % len(kinds)]
         # what must not be left to chance in a short run: state derivatives where the loads depend on the position (standard atmosphere; a
